@@ -372,4 +372,123 @@ def insertSorted (x : Int) : List Int → List Int
 
 def sortedDistinct (xs : List Int) : List Int := xs.foldl (fun acc x => insertSorted x acc) []
 
+/-! ### whole sections of location lists (DWARF 2–4 §2.6.2, §7.7.3; DWARF 5 §7.29; GNU location views):
+    what lies where, what the debugging entries refer to, and what an enumeration must report -/
+
+def viewsSize (vs : List (FV × FV)) : Nat := (vs.map fun p => p.1.size 0 + p.2.size 0).sum
+
+/-- view pairs are pairs of (possibly padded) ULEB128 numbers -/
+def viewsWf (vs : List (FV × FV)) : Bool :=
+  vs.all fun p => p.1.kind == .uleb && p.2.kind == .uleb && p.1.wf 0 && p.2.wf 0
+
+def v4LocSize (asz : Nat) (es : List V4Loc) : Nat := (es.map (V4Loc.size asz)).sum + (asz + asz)
+
+/-- one list of a section as the debugging entries see it: the unreferenced bytes in front of it, its
+    view pairs (`some` when the referring entries carry `DW_AT_GNU_locviews`, which then points at
+    the first pair), the list itself -/
+structure LocObj (α : Type) where
+  gap : Bytes
+  views : Option (List (FV × FV))
+  list : α
+
+def LocObj.viewsLen {α} (o : LocObj α) : Nat :=
+  match o.views with
+  | none => 0
+  | some vs => viewsSize vs
+
+def LocObj.viewsEnc {α} (le : Bool) (o : LocObj α) : Bytes :=
+  match o.views with
+  | none => []
+  | some vs => encViews vs le
+
+def LocObj.viewsObs {α} (off : Nat) (o : LocObj α) : List Val :=
+  match o.views with
+  | none => []
+  | some vs => obsViews off vs
+
+def LocObj.viewsOk {α} (o : LocObj α) : Bool :=
+  match o.views with
+  | none => true
+  | some vs => viewsWf vs
+
+/-- a run of objects: gap, view pairs, list, gap, view pairs, list, … -/
+def encObjs {α} (enc : α → Bytes) (le : Bool) (objs : List (LocObj α)) : Bytes :=
+  objs.flatMap fun o => o.gap ++ (o.viewsEnc le ++ enc o.list)
+
+/-- where each object of a run that starts at `off` lies: (offset of its view pairs, offset of the list, the object) -/
+def layout {α} (sz : α → Nat) : Nat → List (LocObj α) → List (Nat × Nat × LocObj α)
+  | _, [] => []
+  | off, o :: rest =>
+    (off + o.gap.length, off + o.gap.length + o.viewsLen, o)
+      :: layout sz (off + o.gap.length + o.viewsLen + sz o.list) rest
+
+/-- a reference from a debugging entry: the offset held by its `DW_AT_GNU_locviews` (if it has one) and the
+    offset held by the attribute of class loclist -/
+abbrev LocRef := Option Int × Int
+
+/-- the reference an object expects -/
+def layoutRef {α} (e : Nat × Nat × LocObj α) : LocRef := (e.2.2.views.map fun _ => (e.1 : Int), (e.2.1 : Int))
+
+/-- every reference designates an object (with its views exactly when the object has views), and every
+    object is referred to -/
+def refsAgree (rs ks : List LocRef) : Bool := rs.all ks.contains && ks.all rs.contains
+
+/-- a decoded attribute of a debugging entry -/
+structure DieAttr where
+  name : String
+  form : String
+  value : Val
+
+def intOf : Val → Option Int
+  | .int n => some n
+  | _ => none
+
+/-- what one debugging entry of a version-`ver` unit refers to: with `DW_AT_GNU_locviews`, its
+    `DW_AT_location` (which must be a list) together with the views; every other attribute the decision
+    table classifies as a list.  `none`: views without a location list, or a non-integer offset. -/
+def dieLocRefs (ver : Nat) (d : List DieAttr) : Option (List LocRef) := do
+  let gv := d.find? (·.name == "DW_AT_GNU_locviews")
+  let withViews ← (match gv with
+    | none => some []
+    | some va =>
+      match d.find? (·.name == "DW_AT_location") with
+      | none => none
+      | some la =>
+        if classify la.name la.form ver = .list then do
+          let v ← intOf va.value
+          let lo ← intOf la.value
+          pure [(some v, lo)]
+        else none : Option (List LocRef))
+  let others ← (d.filter fun a => (a.name != "DW_AT_location" || gv.isNone)
+                    && classify a.name a.form ver == .list).mapM
+                  fun a => (intOf a.value).map fun lo => ((none, lo) : LocRef)
+  pure (withViews ++ others)
+
+/-- what the enumeration reports for laid-out objects: per object, its view pairs then its entries -/
+def obsObjs {α} (obsL : Nat → α → Option (List Val)) : List (Nat × Nat × LocObj α) → Option (List (List Val))
+  | [] => some []
+  | (vo, lo, o) :: rest => do
+      let vs ← obsL lo o.list
+      let more ← obsObjs obsL rest
+      pure ((o.viewsObs vo ++ vs) :: more)
+
+/-- a unit block of .debug_loclists: header (with offset table), objects, unreferenced bytes at its end.
+    Each list comes with the address array (.debug_addr) of the unit that owns it. -/
+structure LocUnit where
+  hdr : UnitHdr
+  objs : List (LocObj (List Nat × List Ent))
+  tail : Bytes
+
+def LocUnit.body (le : Bool) (asz : Nat) (u : LocUnit) : Bytes :=
+  encObjs (fun x => encList le asz x.2) le u.objs ++ u.tail
+
+def encLocUnits (le : Bool) (asz : Nat) (us : List LocUnit) : Bytes :=
+  us.flatMap fun u => encUnit le u.hdr (u.body le asz)
+
+def layoutUnits (le : Bool) (asz : Nat) : Nat → List LocUnit → List (Nat × Nat × LocObj (List Nat × List Ent))
+  | _, [] => []
+  | off, u :: rest =>
+    layout (fun x => listSize asz x.2) (off + u.hdr.lenSize + 8 + u.hdr.osz * u.hdr.offsets.length) u.objs
+      ++ layoutUnits le asz (off + u.hdr.size (u.body le asz)) rest
+
 end PyElf.Spec.Lists
